@@ -156,6 +156,15 @@ PROPS = {
         "trusted": ["X.509 verification and the TLS handshake are Go's (judged by real handshakes against loopback servers of throw-away CAs); timers are real (waits of ten intervals); FNV-64a is assumed collision-free on the explored pool keys"],
         "assumptions": ["LoadTLSConfig calls are not concurrent with one another in the explored sequences (the lookup-then-insert window of the pool is not explored)"],
     },
+    "C06": {
+        "modules": ["Properties.C06"],
+        "theorems": ["C06_time_seeded_predictable", "C06_csprng_view_independent"],
+        "obligation_codes": [3],
+        "describe_item": (lambda d, it: d),
+        "trusted": ["the translator (harness/cmd/harness/c06.go: go/parser over internal/oidc and the constructors used by non-test code) and its classification table of external functions (crypto/rand, oauth2.GenerateVerifier = CSPRNG; math/rand, time, pid = weak; unknown packages = Unknown, which fails the obligation)",
+                    "the OS CSPRNG itself; disjointness of draws is only tested (relation battery), not proved from the source"],
+        "assumptions": ["PARTIAL: an information-flow theorem about an abstract generator plus a conservative syntactic source classification"],
+    },
     "C03": {
         "modules": ["Properties.C03"],
         "theorems": ["C03_login_completes", "C03_lifetime"],
